@@ -838,7 +838,7 @@ func TestSelfDeterminism(t *testing.T) {
 	tmp, _ := os.MkdirTemp("", "verif-det-")
 	defer os.RemoveAll(tmp)
 	bad, total := 0, 0
-	for _, prop := range []string{"C01", "C03", "C04", "C05", "C07", "C08", "C09", "C10", "C11", "C14", "C17", "C18", "C19"} {
+	for _, prop := range []string{"C01", "C02", "C03", "C04", "C05", "C06", "C07", "C08", "C09", "C10", "C11", "C14", "C16", "C17", "C18", "C19", "C20"} {
 		var seeds []uint64
 		for i := 0; i < n; i++ {
 			seeds = append(seeds, 424200+uint64(i)*7)
